@@ -8,8 +8,11 @@
 (* Contains / ContainsImpl) with that walk on every day.                    *)
 EXTENDS TimeIntervals, TLC
 
-CONSTANTS MaxDay,        \* last day number of the walk
-          ImplFrom, ImplTo   \* day numbers between which ContainsImpl = Contains is evaluated
+CONSTANTS MaxDay,            \* last day number of the walk
+          ZoneTo,            \* the zone rules are checked on days 0 .. ZoneTo
+          OracleWindows,     \* set of <<from, to>>: days on which the oracle table is evaluated
+          ImplFrom, ImplTo,  \* days on which ContainsImpl = Contains is evaluated
+          GateFrom, GateTo   \* days on which the gating refinement is evaluated
 
 VARIABLES n, date, wd
 vars == <<n, date, wd>>
@@ -30,6 +33,9 @@ WeekdayOK == Weekday(n) = wd
 \* month lengths: 1 <= d <= length; the 12 lengths add up to the year's length; the
 \* year has 365 days, 366 iff leap
 MonthLenOK == /\ 1 <= date.d /\ date.d <= MonthLen(date.y, date.m)
+              /\ DaysBeforeMonth(date.y, 1) = 0
+              /\ (date.d = 1 /\ date.m < 12) =>
+                    DaysBeforeMonth(date.y, date.m + 1) = DaysBeforeMonth(date.y, date.m) + MonthLen(date.y, date.m)
               /\ (date.m = 1 /\ date.d = 1) =>
                     /\ DaysBeforeMonth(date.y, 12) + MonthLen(date.y, 12) = YearLen(date.y)
                     /\ DaysBeforeYear(date.y + 1) - DaysBeforeYear(date.y) = YearLen(date.y)
@@ -58,12 +64,15 @@ LocalJumps == [z \in RuleZones |-> CASE z = "Europe/Berlin" -> {<<119, 180>>, <<
                                      [] z = "America/New_York" -> {<<119, 180>>, <<119, 60>>}
                                      [] z = "Australia/Lord_Howe" -> {<<119, 150>>, <<119, 90>>}]
 ZoneRuleOK ==
-  \A z \in RuleZones :
+  n <= ZoneTo =>
+  \A z \in {r \in RuleZones : date.y >= ZoneValidFrom(r)} :
      /\ Offset(z, Noon(n)) \in ZoneValues[z]
      /\ (Offset(z, Noon(n)) # Offset(z, Noon(n + 1))) =>
             /\ Weekday(n + 1) = 0
             /\ \E x \in Transitions(z, date.y) : Noon(n) < x /\ x < Noon(n + 1)
-     /\ \A x \in Transitions(z, date.y) :
+     /\ (date.m = 1 /\ date.d = 1) =>
+          /\ Cardinality(Transitions(z, date.y)) = (IF z = "Europe/Berlin" /\ date.y < 1980 THEN 0 ELSE 2)
+          /\ \A x \in Transitions(z, date.y) :
             /\ Offset(z, x - 1) # Offset(z, x)
             /\ Weekday(DayOf(x + Offset(z, x))) = 0                 \* a Sunday, local
             /\ <<MinuteOf(x - 1 + Offset(z, x - 1)), MinuteOf(x + Offset(z, x))>> \in LocalJumps[z]
@@ -73,7 +82,7 @@ ZoneRuleOK ==
             Offset(z, Noon(n)) = (IF z = "Australia/Lord_Howe" THEN 660 ELSE StdOffset(z))
 
 \* spot checks against well-known facts (day numbers and transition instants)
-SpotChecks ==
+SpotChecks ==      \* constant: checked once, as an assumption
   /\ DayNumber(2000, 1, 1) = 10957 /\ Weekday(10957) = 6
   /\ DayNumber(2000, 2, 29) = 11016 /\ Civil(11016) = [y |-> 2000, m |-> 2, d |-> 29]
   /\ DayNumber(2024, 2, 29) = 19782 /\ Weekday(19782) = 4
@@ -105,6 +114,7 @@ AnyTime == [times |-> {}, weekdays |-> {}, dom |-> {}, months |-> {}, years |-> 
 L == MonthLen(date.y, date.m)
 At(mod) == n * 1440 + mod
 OracleTable ==
+  (\E w \in OracleWindows : w[1] <= n /\ n <= w[2]) =>
   /\ Contains(AnyTime, At(0), 0) /\ Contains(AnyTime, At(1439), 0)
   /\ Contains([AnyTime EXCEPT !.times = {R(0, 1440)}], At(0), 0)
   /\ Contains([AnyTime EXCEPT !.times = {R(0, 1440)}], At(1439), 0)
@@ -132,15 +142,17 @@ OracleTable ==
   /\ Contains([AnyTime EXCEPT !.dom = {R(0 - 1, 0 - 1)}], At(0), 0 - 300) = (date.d = 1)
   /\ Contains([AnyTime EXCEPT !.times = {R(0, 30)}], At(1110), 330)
 
-\* the implementation-shaped definition equals the reference definition for every
-\* day-of-month range the parser accepts (all of them: 31*31 + ... candidates),
-\* on the days ImplFrom..ImplTo
+\* the implementation-shaped day-of-month test (skip, clamp) equals the reference one for
+\* EVERY range the parser accepts, every month length and every day: a constant theorem
 AllDomRanges == {r \in {R(b, e) : b \in (0 - 31) .. 31, e \in (0 - 31) .. 31} : ValidDom(r)}
+DomImplEqualsRef == \A len \in 28 .. 31 : \A d \in 1 .. len : \A r \in AllDomRanges :
+                       DomImpl(r, d, len) = DomRef(r, d, len)
+\* .. and so do the complete definitions, on the days ImplFrom .. ImplTo
 ImplEqualsRef ==
   (ImplFrom <= n /\ n <= ImplTo) =>
-     /\ \A r \in AllDomRanges : DomImpl(r, date.d, L) = DomRef(r, date.d, L)
-     /\ \A r \in {R(1, 1), R(0 - 1, 0 - 1), R(29, 31), R(0 - 31, 0 - 29)} :
-          LET ti == [AnyTime EXCEPT !.dom = {r}, !.times = {R(0, 720)}, !.weekdays = {R(1, 5)}]
+     \A r \in {R(1, 1), R(0 - 1, 0 - 1), R(29, 31), R(0 - 31, 0 - 29), R(15, 0 - 1)} :
+          LET ti == [AnyTime EXCEPT !.dom = {r}, !.times = {R(0, 720)}, !.weekdays = {R(1, 5)},
+                                    !.months = {R(1, 3), R(12, 12)}, !.years = {R(2000, 2001)}]
           IN \A mod \in {0, 719, 720} : \A off \in {0, 345, 0 - 300} :
                 ContainsImpl(ti, At(mod), off, AbsentFields(ti)) = Contains(ti, At(mod), off)
 
@@ -157,7 +169,14 @@ Eom == [AnyTime EXCEPT !.dom = {R(0 - 1, 0 - 1)}]
 GDefs == [weekend |-> {Wk}, business |-> {Bh}, monthend |-> {Eom}, both |-> {Wk, Eom}]
 GNames == DOMAIN GDefs
 GatingRefines ==
-  (ImplFrom <= n /\ n <= ImplFrom + 800) =>
+  (GateFrom <= n /\ n <= GateTo) =>
     \A mute \in SUBSET GNames : \A active \in SUBSET GNames :
        GatingOK(GDefs, mute, active, At(600), StagesImpl(GDefs, mute, active, At(600)))
+
+ASSUME SpotChecks
+ASSUME DomImplEqualsRef
+ASSUME Cardinality(AllDomRanges) > 1000
+\* two windows need negative-free tuples in the cfg: defined here
+MCOracleWindows == {<<0, 13200>>, <<19700, 20100>>, <<47400, 48000>>}
+MCOracleWindowsThorough == {<<0, 49700>>}
 =============================================================================
